@@ -8,7 +8,7 @@
 #define XDRV_MAXUSERCRYSTAL 4096
 typedef struct { char type; void *raw; int32_t *i; double *d; } col_t;
 typedef struct { double v[2]; int32_t code; uint32_t msghash; uint32_t flags; uint32_t leak; } rec_t;
-enum { F_ERR = 1, F_STDERR = 2, F_SLOTPTR = 4, F_SLOTMOD = 8, F_EMPTYMSG = 16, F_NULLOBJ = 32, F_SAN = 64, F_AUX = 128 };
+enum { F_ERR = 1, F_STDERR = 2, F_SLOTPTR = 4, F_SLOTMOD = 8, F_EMPTYMSG = 16, F_NULLOBJ = 32, F_SAN = 64, F_AUX = 128, F_ALLOCFAIL = 256 };
 typedef void (*call_t)(uint32_t j, rec_t *r, xrl_error **e);
 typedef struct { const char *name; const char *sig; call_t call; } fn_t;
 typedef struct { const char *name; call_t call; } op_t;
